@@ -21,7 +21,7 @@ impl Prop for C02 {
         "C02"
     }
     fn phases(&self, tier: Tier) -> Vec<PhaseSpec> {
-        vec![ph("class-forcing", N_FORCED), ph("random-trees", tier.pick(20_000, 1_500_000))]
+        vec![ph("class-forcing", N_FORCED), ph("random-trees", tier.pick(80_000, 5_000_000))]
     }
     fn required_classes(&self, _tier: Tier) -> Vec<String> {
         let mut v = required_ad_classes();
@@ -31,7 +31,7 @@ impl Prop for C02 {
         v
     }
     fn min_evaluations(&self, tier: Tier) -> u64 {
-        tier.pick(30_000, 3_000_000)
+        tier.pick(150_000, 10_000_000)
     }
     fn rule(&self) -> String {
         "The C01 tree workload on Dual2 leaves (including leaves with non-zero initial second-order terms). Every node compared with reference AD in value, gradient and full Hessian; at the root additionally: gradient2 read back for the stored list, permutations, subsets and absent names (both code paths), symmetry, Dual::from(Dual2) bit-identity, and agreement with the same tree evaluated on Dual. distinct_nontrivial = distinct tree shapes with at least one operator.".into()
